@@ -230,6 +230,7 @@ package nflog
 //@   ensures [open-error-reported] called("openReplace") && ret1("openReplace") != nil ==> result1 != nil && !called("Log).Snapshot")
 //@   ensures [success-means-renamed] result1 == nil && deref(snapf) != "" ==> called("replaceFile).Close") && ret("replaceFile).Close") == nil
 //@   ensures [failed-snapshot-discarded] called("Log).Snapshot") && ret1("Log).Snapshot") != nil ==> called("os.File).Close") && called("os.Remove") && !called("replaceFile).Close")
+//@   at call os.Remove assert [only-the-temporary-file-is-ever-removed] called("File).Name") && arg0 == ret("File).Name") && called("Log).Snapshot") && ret1("Log).Snapshot") != nil
 //@   ensures [always-collects] called("Log).GC")
 //@   noeffect Log).GC Log).Snapshot openReplace replaceFile).Close
 // one maintenance run: the given action is executed exactly once and its error is handed back
